@@ -47,7 +47,6 @@ def kinds_matrix(ck, tier):
 
 def run(tier, seed):
     ck = Check("C09", tier, seed)
-    ck.preds["c09_cast_nested_vec"] = cast_nested_vec
     ck.add_mc(vlib.tlc_model_check("MC_Layout", "MC_Layout_quick"))
     ck.add_mc(vlib.tlc_model_check("MC_Broadcast", "MC_Broadcast_quick"))
     cases = [dict(id=i + 1, group=g, name=n) for i, (g, n) in enumerate(CASES)]
